@@ -220,6 +220,65 @@ def pat_fixed_len(p):
     return None
 
 
+def inline_helpers(node, facts, depth=0, stack=()):
+    """Copy of a facts subtree in which every call to a function *defined in lexer.l / parser.y user code* (a helper
+    extracted from scanner actions) is replaced by
+        {"k": "inlined", "name", "call": <original call>, "body": <callee body, parameters substituted by the
+         argument expressions, its `return e` turned into {"k": "cret", "e": e}>}
+    so that rules which look for what an action does (line accounting, BEGIN, builder calls, the tokens it can return)
+    see through the helper.  Recursive helpers and helpers deeper than 4 levels are left as calls."""
+    import copy
+
+    def subst(n, env):
+        if isinstance(n, list):
+            return [subst(x, env) for x in n]
+        if not isinstance(n, dict):
+            return n
+        if n.get("k") == "ref" and n.get("dk") == "param" and n.get("name") in env:
+            return env[n["name"]]
+        if n.get("k") == "return":
+            return {"k": "cret", "l": n.get("l"), "f": n.get("f"), "e": subst(n.get("e"), env) if n.get("e") is not None else None}
+        return {k: subst(v, env) if isinstance(v, (dict, list)) else v for k, v in n.items()}
+
+    def rec(n, depth, stack):
+        if isinstance(n, list):
+            return [rec(x, depth, stack) for x in n]
+        if not isinstance(n, dict):
+            return n
+        out = {k: rec(v, depth, stack) if isinstance(v, (dict, list)) else v for k, v in n.items()}
+        if out.get("k") == "call" and out.get("ck") in ("free", None, "static") and out.get("fn") and depth < 4:
+            fq = out["fn"]
+            if fq not in stack:
+                for t in facts.fns(fq):
+                    f = t.get("file") or ""
+                    if t.get("body") is None or not f.endswith(("lexer.l", "parser.y")) or \
+                            len(t["params"]) != len(out.get("args", [])) or fq in ("utap_error", "utap_lex", "lexer_flex"):
+                        continue
+                    env = {p["name"]: a for p, a in zip(t["params"], out.get("args", []))}
+                    body = rec(subst(copy.deepcopy(t["body"]), env), depth + 1, stack + (fq,))
+                    return {"k": "inlined", "name": out.get("name"), "l": out.get("l"), "f": out.get("f"),
+                            "call": out, "body": body}
+        return out
+    return rec(node, depth, stack)
+
+
+def leaf_returns(e):
+    """The expressions an action's `return e` can evaluate to, looking through inlined helpers and ?: ."""
+    if e is None:
+        return []
+    while isinstance(e, dict) and e.get("k") == "cast":
+        e = e["e"]
+    if e.get("k") == "inlined":
+        out = []
+        for x in walk(e["body"]):
+            if x.get("k") == "cret" and x.get("e") is not None:
+                out += leaf_returns(x["e"])
+        return out
+    if e.get("k") == "cond":
+        return leaf_returns(e["a"]) + leaf_returns(e["b"])
+    return [e]
+
+
 class LexRule:
     __slots__ = ("num", "sc", "text", "pat", "line", "endline", "action", "eof", "shared_with_next")
 
@@ -412,6 +471,9 @@ class Lexer:
             if r.action is None:
                 raise AnalysisBroken("EOF rule %r has no case" % r)
         self.n_rules = nrules
+        for r in self.rules:
+            if r.action is not None:
+                r.action = inline_helpers(r.action, facts)
 
     @staticmethod
     def _is_user_action(s):
@@ -425,8 +487,23 @@ class Lexer:
 
     # ------------------------------------------------------------------ queries
     def returns(self, r):
-        """Return expressions of a rule's action (facts nodes)."""
-        return [n for n in walk(r.action) if n.get("k") == "return"] if r.action else []
+        """Return statements of a rule's action, one pseudo node per value the returned expression can have (looking
+        through inlined helpers and conditional expressions)."""
+        out = []
+        if not r.action:
+            return out
+        for n in walk(r.action):
+            if n.get("k") != "return":
+                continue
+            if n.get("e") is None:
+                out.append(n)
+                continue
+            leaves = leaf_returns(n["e"])
+            if len(leaves) == 1 and leaves[0] is n["e"]:
+                out.append(n)
+            else:
+                out += [dict(n, e=x) for x in leaves]
+        return out
 
     def literal_tokens(self):
         """lexeme -> set of returned token names, for INITIAL rules with pure-literal patterns."""
